@@ -234,6 +234,10 @@ func (ex *Exec) lookup(st *State, t *ssa.Lookup) {
 func (ex *Exec) unop(st *State, t *ssa.UnOp) {
 	switch t.Op {
 	case token.MUL: // load
+		if g, ok := t.X.(*ssa.Global); ok && g.Name() == "init$guard" {
+			st.vals[t] = tFalse // the initialiser body runs exactly once
+			return
+		}
 		l := ex.locOf(st, t.X)
 		if l.Kind == LObj || l.Kind == LCell {
 			ex.checkNonNil(st, l.Obj, t, "nil pointer dereference")
@@ -602,6 +606,9 @@ func (ex *Exec) frameCheck(st *State, name string, pos token.Pos, root ssa.Value
 
 func (ex *Exec) frameStore(st *State, t *ssa.Store, l Loc) {
 	name := fmt.Sprintf("frame/store#%d", ex.ordinal[t])
+	if g, ok := t.Addr.(*ssa.Global); ok && g.Name() == "init$guard" {
+		return
+	}
 	switch l.Kind {
 	case LObj:
 		si := st.u().structInfoOf(l.Type)
